@@ -1,6 +1,6 @@
 (* C11: accepted programs keep their static promises; rule-breaking ones are rejected (on the calculus EffVy). *)
 From Coq Require Import ZArith Bool List.
-From Verif Require Import C11.Effects C11.EffectsSound C11.EffectsPure C11.EffectsReject.
+From Verif Require Import C11.Effects C11.EffectsSound C11.EffectsPure C11.EffectsReject C11.EffectsTerm.
 Import ListNotations.
 Open Scope Z_scope.
 
@@ -46,6 +46,21 @@ Theorem acyclic_call_graph : forall p, check p = true -> forall f, ~ path p f f.
 Proof. exact acyclic_lemma. Qed.
 Print Assumptions acyclic_call_graph.
 
+(* acyclic_terminates: with the statically computed fuel `fuel_bound p` (from the syntax and the acyclic call graph)
+   no run of any function of an accepted program runs out of fuel: it ends with a result or a revert ... *)
+Theorem acyclic_terminates : forall p, check p = true ->
+  forall f g, nth_error (funs p) f = Some g ->
+  forall n, (fuel_bound p <= n)%nat -> forall w fr, exec n p w fr (fbody g) <> Fuel.
+Proof. exact acyclic_terminates_lemma. Qed.
+Print Assumptions acyclic_terminates.
+(* ... after at most `ib_f` loop iterations in total (its own and those of everything it calls), a number computed from
+   the literal range ends, the `bound=` values and the array lengths alone *)
+Theorem static_iteration_bound : forall p, check p = true ->
+  forall f g n w fr o w' fr' t, nth_error (funs p) f = Some g ->
+    exec n p w fr (fbody g) = Done (o, w', fr', t) -> (niter t <= ib_f (length (funs p)) p f)%nat.
+Proof. exact static_iteration_bound_lemma. Qed.
+Print Assumptions static_iteration_bound.
+
 (* reject_complete: a rule violation at ANY position (statement nesting x expression nesting) of ANY function
    makes check false; the viol_* lemmas enumerate the single-rule violations *)
 Theorem reject_complete_expr : forall p g s e0 e,
@@ -77,3 +92,9 @@ Example effects_nonvacuous :
   check (mk_prog [f_pure; f_view_bad; f_write] (fun _ => 7)) = false /\
   check (mk_prog [mk_fn View Internal (SReturn (ECall 0 (ELit 1)))] (fun _ => 0)) = false.
 Proof. repeat split; try (vm_compute; reflexivity). eexists. eexists. eexists. vm_compute. reflexivity. Qed.
+Example termination_nonvacuous :
+  fuel_bound p_ok = 9%nat /\ ib_f 3 p_ok 1 = 5%nat /\
+  (exists w' fr' t, exec (fuel_bound p_ok) p_ok w0 (mk_frame (fun _ => 0) 5 (fun _ => 0)) (fbody f_view) = Done (Returned 60, w', fr', t)
+                    /\ niter t = 5%nat) /\
+  exec 50 p_ok w0 (mk_frame (fun _ => 0) 6 (fun _ => 0)) (fbody f_view) = Revert.
+Proof. repeat split; try (vm_compute; reflexivity). eexists. eexists. eexists. vm_compute. split; reflexivity. Qed.
